@@ -57,7 +57,11 @@ func init() {
 		}
 		evaluator := *funcs.Fetch("majorityHeuristic")
 		for c := 0; c < n; c++ {
-			q := genRequest(r, ReqOpts{Methods: []string{"majorityHeuristic"}, Prob: ProbOpts{MaxAlt: maxAlt, MaxCrit: 6}})
+			ma := maxAlt
+			if r.chance(0.05) { // long tournaments (library sorts switch algorithm above 12 elements)
+				ma = 24
+			}
+			q := genRequest(r, ReqOpts{Methods: []string{"majorityHeuristic"}, Prob: ProbOpts{MaxAlt: ma, MaxCrit: 6}})
 			mp := q.Body["methodParameters"].(J)
 			heurShapeProblem(r, q)
 			heurShapeCurrent(r, q, mp)
